@@ -109,6 +109,11 @@ OPS = {
 }
 
 
+class _Let:
+    def __init__(self, node, env):
+        self.node, self.env = node, env
+
+
 class Ref:
     def __init__(self, prog: Program, context: Optional[dict] = None):
         self.prog = prog
@@ -204,6 +209,11 @@ class Ref:
                         e2[var] = o[1]
                         pending.append((e2, i + 1))
             return out
+        if getattr(t, "lets", None):
+            # a local variable holding a lazy expression: every use evaluates to the same outcome
+            env = dict(env)
+            for var, node in t.lets:
+                env[var] = _Let(node, dict(env))
         return self.eval(t.body, env, ctx)
 
     # -- expressions -------------------------------------------------------------
@@ -229,7 +239,10 @@ class Ref:
         if k == "lit":
             return Out.value(node[1])
         if k == "par":
-            return Out.value(env[node[1]])
+            v = env[node[1]]
+            if isinstance(v, _Let):
+                return self.eval(v.node, v.env, ctx)
+            return Out.value(v)
         if k == "call":
             _, tidx, args, kwargs, opts = node
             t = self.prog.tasks[tidx]
